@@ -1,19 +1,23 @@
 SPEC_PART = dict(
     props_file="C12_hll",
-    legs=[dict(family="hll", focus="layout", oracles=["layout_ok"], profiles=["debug"], mask=[1, 2, 3, 4, 5, 7],
-               n_quick=40, n_thorough=500)],
+    legs=[dict(family="hll", focus="layout", oracles=["layout_ok"], profiles=["debug"], mask=[1, 2, 3, 4, 5, 7, 8, 30, 31],
+               n_quick=40, n_thorough=500, panic_is_violation=True)],
     trusted=["hll format = my reading of the Java/C++ layout (DESIGN.md Appendix A; Spec/HllLayout.v): 8/12/40-byte preambles, "
              "flags EMPTY 4 / COMPACT 8 / OUT_OF_ORDER 16, mode byte = curMode | tgtType << 2, coupons value << 26 | slot, Hll4 low "
              "nibble = even slot with 15 = exception, Hll6 slot s at bit 6s, compact aux = auxCount coupons; no upstream files offline"],
     assumptions=[],
-    covers="hll: model_enc_conforms proved in full -- for every well-formed sketch and in particular every state reachable by "
-           "updates (all lg_k, types, modes) the independent decoder hll_spec_decode (Spec/HllLayout.v) applied to hll_serialize s "
-           "returns the sketch's abstract state: lg_k, type, mode, the coupon set (list / set) or the k register values read through "
-           "Hll4 nibbles + exception list / the Hll6 bit string / Hll8 bytes, cur_min, num_at_cur_min, out-of-order flag "
-           "(c12_hll_image_conforms(_of_stream), c12_hll_array4_image); the translated constants are the specification's "
-           "(c12_hll_layout_glue). Tie: Spec/HllLayout.v hll_spec_decode (written from "
-           "the format description, independent of the model) applied to the crate's serialize() output must give exactly the Spec "
-           "state of the stream: lg_k, type, mode as a function of the number of distinct coupons, the coupon set / the per-slot "
-           "maxima, cur_min = smallest register, num_at_cur_min, the exceptions, the COMPACT flag on array images (repaired defect "
-           "C12-hll-array-compact-flag), and the exact image size.",
+    covers="hll: model_enc_conforms proved -- for every well-formed sketch (SrcOK: built, merged, deserialized-canonical) and in "
+           "particular every state reachable by updates (all lg_k, types, modes) the independent decoder hll_spec_decode "
+           "(Spec/HllLayout.v) applied to hll_serialize s returns the sketch's abstract state (image_shows): lg_k, type, mode, the "
+           "out-of-order flag, the coupon set (list / set) or -- for all three array types -- the k register values read through Hll4 "
+           "nibbles + exception list / the Hll6 bit string / Hll8 bytes, a cur_min byte that is a lower bound of the registers (0 for "
+           "Hll6 / Hll8) and num_at_cur_min = the number of registers at cur_min (c12_hll_image_conforms(_of_stream)); for Hll4 also "
+           "the exact cur_min, num_at_cur_min and exception list of the Array4 (c12_hll_array4_image); the translated constants are "
+           "the specification's (c12_hll_layout_glue). NOT in a theorem: the three binary64 fields hip_accum / kxq0 / kxq1 (compared "
+           "bit for bit with the model's image by the correspondence run, op 7) and the aux-count field outside Hll4. Tie: "
+           "Spec/HllLayout.v hll_spec_decode (written from the format description, independent of the model) applied to the "
+           "crate's serialize() output must give exactly the Spec state of the stream: lg_k, type, mode as a function of the number "
+           "of distinct coupons, out-of-order flag clear, the coupon set / the per-slot maxima, cur_min = smallest register, "
+           "num_at_cur_min, the exceptions, the COMPACT flag on array images (repaired defect C12-hll-array-compact-flag), and the "
+           "exact image size; any panic is a violation.",
 )
